@@ -37,6 +37,7 @@ static object_t *main_ob = 0;
 static svalue_t uslots[NSLOT];
 static object_t *uhandle[NOBJ];
 static int exist_used[NOBJ];
+static object_t *existp[NOBJ];	/* the object while it is on the object list or waiting for destruct2 */
 static int call_used[NCALL], call_handle[NCALL], call_owner[NCALL], call_st[NCALL];
 static object_t *call_ownerp[NCALL];
 extern void remove_all_call_out (object_t *);
@@ -54,12 +55,12 @@ static int ncells = 0;
 
 static long base[7];
 static int dangling (svalue_t * sv);
-static char *fn_names[6];		/* shared strings "cb", "cbs0".."cbs3", "act" of the uobj program */
+static char *fn_names[8];		/* shared strings "cb", "cbs0".."cbs3", "act" of the uobj program */
 static long fn_base = 0;
 static long fn_refs (void)
 {
   long n = 0;
-  for (int i = 0; i < 6; i++)
+  for (int i = 0; i < 8; i++)
     if (fn_names[i])
       n += COUNTED_REF (fn_names[i]);
   return n;
@@ -483,10 +484,10 @@ static int unit_op (int n, char **t, int *a)
     {
       svalue_t fun, args[2];
       char name[16];
-      if (a[3])
+      if (a[3] == 1)
         snprintf (name, sizeof name, "cbs%d", a[1]);
       else
-        snprintf (name, sizeof name, "cb");
+        snprintf (name, sizeof name, "%s", a[3] == 2 ? "cbe" : a[3] == 3 ? "cbd" : "cb");
       fun.type = T_STRING;
       fun.subtype = STRING_CONSTANT;
       fun.u.string = name;
@@ -634,7 +635,7 @@ static int applicable (int n, char **t, int *a)
   if (!strcmp (op, "drop"))
     return n == 2 && a[1] >= 0 && a[1] < NOBJ && hobj (a[1]) != 0;
   if (!strcmp (op, "call"))
-    return n == 6 && a[1] >= 0 && a[1] < NCALL && objok (a[2]) && SL (a[4]) && SL (a[5]) && !call_used[a[1]];
+    return n == 6 && a[1] >= 0 && a[1] < NCALL && objok (a[2]) && a[3] >= 0 && a[3] <= 3 && SL (a[4]) && SL (a[5]) && !call_used[a[1]];
   if (!strcmp (op, "rmcall"))
     return n == 2 && a[1] >= 0 && a[1] < NCALL && call_used[a[1]];
   if (!strcmp (op, "rmcalln"))
@@ -785,8 +786,8 @@ static int c06_cmd (char *line)
       }
       snapshot (base);
       {
-        static const char *nm[6] = { "cb", "cbs0", "cbs1", "cbs2", "cbs3", "act" };
-        for (int i = 0; i < 6; i++)
+        static const char *nm[8] = { "cb", "cbs0", "cbs1", "cbs2", "cbs3", "act", "cbe", "cbd" };
+        for (int i = 0; i < 8; i++)
           fn_names[i] = findstring (nm[i]);
         fn_base = fn_refs ();
       }
@@ -986,6 +987,15 @@ static int c06_cmd (char *line)
       applied = 1;
       for (int k = 0; k < NCALL; k++)
         call_used[k] = 0;
+      /* objects destructed by their own callback (cbd) */
+      for (int o = 0; o < NOBJ; o++)
+        if (exist_used[o] == 1 && existp[o] && !poisoned (existp[o]) && (existp[o]->flags & O_DESTRUCTED))
+          {
+            exist_used[o] = 2;
+            for (int k = 0; k < NSENT; k++)
+              if (sent_used[k] && sent_owner[k] == o)
+                sent_used[k] = 0;
+          }
     }
   else if (lpc_mode)
     {
@@ -1044,6 +1054,7 @@ static int c06_cmd (char *line)
       if (hobj (a[1]))
         track (hobj (a[1]), K_OBJ);
       exist_used[a[1]] = 1;
+      existp[a[1]] = hobj (a[1]);
       applied = 1;
     }
   else if (!strcmp (t[0], "dest"))
@@ -1060,7 +1071,7 @@ static int c06_cmd (char *line)
       call_used[a[1]] = 1;
       call_owner[a[1]] = a[2];
       call_ownerp[a[1]] = hobj (a[2]);
-      call_st[a[1]] = a[3] != 0;
+      call_st[a[1]] = a[3] == 1;
     }
   else if (!strcmp (t[0], "rmcall") || !strcmp (t[0], "rmcalln"))
     call_used[a[1]] = 0;
